@@ -43,19 +43,25 @@ def classify(case, rej, events):
     if "rec" not in case:
         return None
     tag = recur.known_class(case["rec"])
+    bare = rej["clause"][6:] if rej["clause"].startswith("known:") else rej["clause"]
     if tag == "bounded-duration/end-recurrence-with-month/year-interval":
         # the specification marks a rejection "known:" only when the yielded points are exactly what the recorded algorithm
         # (start = end - (n-1) * interval, then forward) produces
-        if not rej["clause"].startswith("known:"):
+        if rej["clause"].startswith("known:"):
+            return tag if bare in ("count-not-n", "end-anchor-not-included", "more-than-n-points") else None
+        # ... unless the anchor is in a decimal form as well: then float accumulation (the other recorded finding) can bend the
+        # series away from the exact prediction
+        if case["rec"]["n"] >= 2 and recur.float_class(case["rec"]):
+            tag = "bounded-recurrence-from-decimal-form-anchor-with-finer-interval"
+        else:
             return None
-        return tag if rej["clause"][6:] in ("count-not-n", "end-anchor-not-included", "more-than-n-points") else None
     # each recorded finding manifests through particular clauses only: the end-anchored month/year series is a correct chain of
     # additions that merely starts in the wrong place (wrong count / end not reached); float accumulation can also bend a step
     clauses = {"bounded-duration/end-recurrence-with-month/year-interval": ("count-not-n", "end-anchor-not-included", "more-than-n-points"),
                "bounded-recurrence-from-decimal-form-anchor-with-finer-interval":
                    ("count-not-n", "end-anchor-not-included", "consecutive-points-not-one-interval-apart", "more-than-n-points",
                     "next-not-previous-plus-interval")}
-    return tag if tag and rej["clause"] in clauses[tag] else None
+    return tag if tag and bare in clauses[tag] else None
 
 
 XMODE = [
